@@ -159,7 +159,11 @@ def _evolve(data: IOData, **changes) -> IOData:
     When the object has orbitals, they define the number of electrons and the spin polarization.
     A value of nelec or spinpol that was assigned before the orbitals is superseded,
     and the constructor refuses it in combination with orbitals, so it is not passed on.
+    The same holds for a charge that was assigned before the core charges were known:
+    once they are known, the charge follows from the core charges and the orbitals.
     """
     if data.mo is not None:
         changes = {"nelec": None, "spinpol": None, **changes}
+        if data.atcorenums is not None:
+            changes = {"charge": None, **changes}
     return attrs.evolve(data, **changes)
